@@ -864,9 +864,17 @@ func getAreaHook(ctx *core.Ctx, bin string) {
 		{"SET", "areas", "zone", "OBJECT", poly},
 		{"SET", "areas", "zone2", "OBJECT", poly},
 		{"SET", "gfleet", "t", "POINT", "5", "5"},
+		{"SET", "areas", "zone3", "OBJECT", poly},
+		{"SET", "areas", "pt", "POINT", "0", "0"},
 		{"SETCHAN", "cget-deleted", "WITHIN", "gfleet", "FENCE", "GET", "areas", "zone"},
 		{"SETCHAN", "cget-kept", "WITHIN", "gfleet", "FENCE", "GET", "areas", "zone2"},
+		{"SETCHAN", "cget-clipby", "WITHIN", "gfleet", "FENCE", "GET", "areas", "zone3", "CLIPBY", "BOUNDS", "0", "0", "5", "5"},
+		{"SETCHAN", "cget-buffer", "INTERSECTS", "gfleet", "FENCE", "DETECT", "enter,exit", "BUFFER", "10000", "GET", "areas", "pt"},
+		{"SETCHAN", "cget-buffer-poly", "INTERSECTS", "gfleet", "FENCE", "BUFFER", "10000", "GET", "areas", "zone2"},
+		{"SETCHAN", "cmatch-get", "WITHIN", "gfleet", "MATCH", "get", "FENCE", "OBJECT", poly},
+		{"SETCHAN", "cwherein-get", "WITHIN", "gfleet", "WHEREIN", "f", "1", "get", "FENCE", "OBJECT", poly},
 		{"DEL", "areas", "zone"},
+		{"DEL", "areas", "zone3"},
 	} {
 		if r, err := c.Do(cmd...); err != nil || r.IsErr() {
 			ctx.Inconclusive(fmt.Sprintf("get-area hook: %q: %v %s", cmd, err, r.String()))
@@ -912,10 +920,38 @@ func getAreaHook(ctx *core.Ctx, bin string) {
 	}
 	ctx.Eval(1)
 	ctx.Distinct("sequential|get-area-hook")
-	for _, n := range []string{"cget-deleted", "cget-kept"} {
+	// BUFFER is applied once: a point 15 km from the buffered (10 km) point area stays outside
+	if sub, err := respc.Dial(s2.Addr(), 5*time.Second); err == nil {
+		defer sub.Close()
+		sub.Send("SUBSCRIBE", "cget-buffer")
+		sub.RecvTimeout(5 * time.Second)
+		if c2, err := respc.Dial(s2.Addr(), 5*time.Second); err == nil {
+			c2.Do("SET", "gfleet", "far", "POINT", "0", "0.135")
+			c2.Do("SET", "gfleet", "near", "POINT", "0", "0.05")
+			c2.Close()
+			var ids []string
+			for {
+				rp, err := sub.RecvTimeout(1500 * time.Millisecond)
+				if err != nil {
+					break
+				}
+				if rp.Kind == '*' && len(rp.Arr) == 3 {
+					txt := rp.Arr[2].Str
+					if i := strings.Index(txt, `"id":"`); i >= 0 {
+						id := txt[i+6:]
+						ids = append(ids, id[:strings.IndexByte(id, '"')])
+					}
+				}
+			}
+			if strings.Join(ids, ",") != "near" {
+				ctx.Violation("shrink-changes-get-area-fence", fmt.Sprintf("channel cget-buffer (`INTERSECTS gfleet FENCE DETECT enter,exit BUFFER 10000 GET areas pt`, a point) after AOFSHRINK and a restart: SET far (15 km away) and SET near (5.5 km away) produced events for %v, expected [near]", ids), nil)
+			}
+		}
+	}
+	for _, n := range []string{"cget-deleted", "cget-kept", "cget-clipby", "cget-buffer", "cget-buffer-poly", "cmatch-get", "cwherein-get"} {
 		if live[n] && !after[n] {
 			what := "still exists"
-			if n == "cget-deleted" {
+			if n == "cget-deleted" || n == "cget-clipby" {
 				what = "was deleted afterwards"
 			}
 			ctx.Violation("shrink-loses-get-area-channel:"+n, fmt.Sprintf("channel %s (`WITHIN gfleet FENCE GET areas ...`, the referenced object %s) is served before and after AOFSHRINK and is gone after a restart on the shrunk log", n, what), map[string]any{"channel": n})
